@@ -418,12 +418,41 @@ func random(c *mon.Ctx, r *gen.Rand) {
 	n := 3 + r.Intn(28)
 	// signal times start at an ordinary value, at 0, or shortly before the 33-bit wrap (later ones then pass through 0)
 	pts := r.PickU64([]uint64{1000, 1000, 1000, 0, 1<<33 - 300, 1<<33 - 1, 1<<32 - 200})
+	// signals do not have to arrive in the order of their signal times (a time_signal may be sent well ahead of its
+	// splice point): in a third of the histories some signal times are earlier ones again, or lie before all so far
+	outOfOrder := r.Chance(3)
+	if outOfOrder {
+		n += 15
+		pts = (pts + 5000) & (1<<33 - 1)
+		t.pat["signal-times-out-of-order"] = true
+	}
+	lowest, used := pts, []uint64{}
+	// submissions so far, and the number of them that preceded the first one at each signal time: every submission
+	// adds at most one signal time to the tracker's duplicate memory (10 signal times)
+	subs, firstAt := 0, map[uint64]int{}
 	for i := 0; i < n && !t.dead; i++ {
 		switch op := r.Intn(20); {
 		case op < 13:
 			if r.Chance(2) || t.perPTS[pts] >= 6 {
 				pts = (pts + 100) & (1<<33 - 1)
 			}
+			cur := pts
+			if outOfOrder && r.Chance(4) {
+				if r.Bool() && len(used) > 0 {
+					pts = used[r.Intn(len(used))]
+				} else {
+					lowest = (lowest - 100) & (1<<33 - 1)
+					pts = lowest
+				}
+				if t.perPTS[pts] >= 6 {
+					pts = cur
+				}
+			}
+			used = append(used, pts)
+			if _, ok := firstAt[pts]; !ok {
+				firstAt[pts] = subs
+			}
+			subs++
 			typ := types[r.Intn(len(types))]
 			num, exp := byte(1), byte(1)
 			if r.Chance(4) {
@@ -432,6 +461,11 @@ func random(c *mon.Ctx, r *gen.Rand) {
 			d := mk(typ, uint32(1+r.Intn(2)), pts, !r.Chance(12), num, exp)
 			t.register(d, typ, d.EventID(), pts, d.SCTE35().HasPTS())
 			t.process(d)
+			if pts != cur && r.Bool() {
+				subs++
+				t.process(d) // twice in a row
+			}
+			pts = cur
 		case op < 15: // process something seen before again (immediately or later)
 			if len(t.all) == 0 {
 				continue
@@ -447,6 +481,10 @@ func random(c *mon.Ctx, r *gen.Rand) {
 			if int((pts-t.inf[d].pts)&(1<<33-1))/100 >= 8 && t.live[d] {
 				continue
 			}
+			if at, ok := firstAt[t.inf[d].pts]; outOfOrder && t.live[d] && (!ok || subs-at >= 8) {
+				continue
+			}
+			subs++
 			t.process(d)
 		case op < 18:
 			if len(t.all) == 0 {
@@ -483,6 +521,10 @@ func random(c *mon.Ctx, r *gen.Rand) {
 			sg.SetDescriptors([]D{d1, d2})
 			t.register(d1, 0x30, d1.EventID(), pts, true)
 			t.register(d2, 0x34, d2.EventID(), pts, true)
+			if _, ok := firstAt[pts]; !ok {
+				firstAt[pts] = subs
+			}
+			subs += 2
 			t.process(d1)
 			if r.Bool() {
 				ts.SetHasPTS(false)
@@ -494,6 +536,97 @@ func random(c *mon.Ctx, r *gen.Rand) {
 		}
 	}
 	t.finish("random")
+}
+
+// pooled draws short histories from small pools: two or three placement-opportunity / ad-block types (the closing
+// rules that compare signal times live there), one or two types that sit between them on the open list, one event id,
+// two or three signal times in any order, and explicit closes of whatever is open. Descriptors of one type and event
+// then become neighbours on the open list in every way the calls allow.
+func pooled(c *mon.Ctx, r *gen.Rand) {
+	t := newTracker(c)
+	fam := []byte{0x30, 0x3c, 0x44, 0x34, 0x36, 0x35, 0x37, 0x45, 0x32}
+	blk := []byte{0x20, 0x13, 0x40, 0x17, 0x10, 0x22, 0x19, 0x50}
+	var pool []byte
+	for k := 2 + r.Intn(2); k > 0; k-- {
+		pool = append(pool, fam[r.Intn(len(fam))])
+	}
+	for k := 1 + r.Intn(2); k > 0; k-- {
+		pool = append(pool, blk[r.Intn(len(blk))])
+	}
+	base := r.PickU64([]uint64{1000, 90000, 0, 1<<33 - 100, 1<<33 - 1})
+	times := []uint64{base, (base + 100) & (1<<33 - 1), (base + 200) & (1<<33 - 1)}[:2+r.Intn(2)]
+	events := 1 + r.Intn(2)
+	n := 4 + r.Intn(9)
+	if r.Chance(4) {
+		// two descriptors of one type (and mostly one event) with something between them that is then closed
+		// explicitly, so that the two become neighbours; then a descriptor whose closing rule may tell them apart
+		open := r.PickByte([]byte{0x30, 0x3c, 0x44, 0x32, 0x34, 0x36})
+		closer := r.PickByte([]byte{0x34, 0x36, 0x44, 0x35, 0x37, 0x45, 0x30, 0x3c, pool[0]})
+		ev := uint32(1 + r.Intn(events))
+		ev2 := ev
+		if r.Chance(4) {
+			ev2 = 3 - ev
+		}
+		pick := func() uint64 { return times[r.Intn(len(times))] }
+		steps := []struct {
+			typ byte
+			ev  uint32
+		}{{open, ev}, {blk[r.Intn(len(blk))], 1}, {open, ev2}}
+		var between D
+		for k, st := range steps {
+			d := mk(st.typ, st.ev, pick(), true, 1, 1)
+			t.register(d, st.typ, st.ev, uint64(d.SCTE35().PTS()), true)
+			t.process(d)
+			if k == 1 {
+				between = d
+			}
+			if r.Chance(8) {
+				t.probe()
+			}
+		}
+		t.close(between)
+		d := mk(closer, uint32(1+r.Intn(events)), pick(), true, 1, 1)
+		t.register(d, closer, d.EventID(), uint64(d.SCTE35().PTS()), true)
+		t.process(d)
+		t.pat["neighbours-after-explicit-close"] = true
+		n = r.Intn(4)
+	}
+	for i := 0; i < n && !t.dead; i++ {
+		switch op := r.Intn(20); {
+		case op < 12:
+			pts := times[r.Intn(len(times))]
+			if t.perPTS[pts] >= 6 {
+				continue
+			}
+			typ := pool[r.Intn(len(pool))]
+			d := mk(typ, uint32(1+r.Intn(events)), pts, true, 1, 1)
+			t.register(d, typ, d.EventID(), pts, true)
+			t.process(d)
+		case op < 13:
+			if len(t.all) > 0 {
+				d := t.all[r.Intn(len(t.all))]
+				if t.perPTS[t.inf[d].pts] < 6 {
+					t.process(d)
+				}
+			}
+		case op < 19:
+			var live []D
+			for _, d := range t.all {
+				if t.live[d] {
+					live = append(live, d)
+				}
+			}
+			if len(live) > 0 && !r.Chance(5) {
+				t.close(live[r.Intn(len(live))])
+			} else if len(t.all) > 0 {
+				t.close(t.all[r.Intn(len(t.all))])
+			}
+		default:
+			t.probe()
+		}
+	}
+	t.c.Count("pooled.histories")
+	t.finish("pooled")
 }
 
 // deep builds an open list of 60..200 descriptors (types that nothing closes, and repeated breakaways)
@@ -631,7 +764,7 @@ func exhaustive(c *mon.Ctx, code, depth int) {
 }
 
 func run(c *mon.Ctx) {
-	c.Rule("histories of ProcessDescriptor / Close / Open calls on real descriptors: all sequences of 3 (thorough: 4 and 5) symbols over a 15-symbol alphabet (12 segmentation types, close-first, close-last, re-process-last), plus random histories of 3..30 calls over 16 types, two event ids, mostly increasing signal times with repeats, 8% signals without PTS, re-submissions and explicit closes; invariants over the recorded event log are checked after every call. distinct non-trivial = distinct (set of patterns exercised among breakaway, breakaway closed by another signal, second breakaway, resumption in/outside blackout, explicit close during blackout / of the breakaway; operation-kind prefix) for histories with at least two patterns")
+	c.Rule("histories of ProcessDescriptor / Close / Open calls on real descriptors: all sequences of 3 (thorough: 4 and 5) symbols over a 15-symbol alphabet (12 segmentation types, close-first, close-last, re-process-last), plus random histories of 3..30 calls over 16 types, two event ids, mostly increasing signal times with repeats (in a third of the histories also earlier times again and times before all others), short histories over small pools of types and times with explicit closes, 8% signals without PTS, re-submissions and explicit closes; invariants over the recorded event log are checked after every call. distinct non-trivial = distinct (set of patterns exercised among breakaway, breakaway closed by another signal, second breakaway, resumption in/outside blackout, explicit close during blackout / of the breakaway; operation-kind prefix) for histories with at least two patterns")
 	c.Assume("CanClose and Equal are the closing relation and equality decided by C19; a descriptor is re-submitted only inside the tracker's duplicate window or after it was closed; at most 7 submissions share one signal time (the tracker's per-time list doubles on every such arrival, which is outside this property but would exhaust memory)")
 	c.Floor("pattern.breakaway-closed-by-other", 100)
 	c.Floor("pattern.second-breakaway", 100)
@@ -691,6 +824,9 @@ func run(c *mon.Ctx) {
 		c.Class("concurrent-trackers")
 	})
 	c.Stream("random", c.N(40000, 30000000), func(i int, r *gen.Rand) { random(c, r) })
+	c.Floor("pattern.signal-times-out-of-order", 1000)
+	c.Floor("pooled.histories", 10000)
+	c.Stream("pooled", c.N(40000, 20000000), func(i int, r *gen.Rand) { pooled(c, r) })
 	c.Stream("interleaved", c.N(10000, 5000000), func(i int, r *gen.Rand) { interleaved(c, r) })
 	c.Stream("deep", c.N(300, 60000), func(i int, r *gen.Rand) { deep(c, r) })
 }
